@@ -129,7 +129,7 @@ def metamorphic_selftest(prop):
     sys.path.insert(0, os.path.join(VERIF, "selftest"))
     import alpha
     out = []
-    for mode in ("rename-locals", "hoist-returns", "name-arguments", "unelse", "else-after-exit", "flip-comparisons", "keyword-arguments", "inline-temps", "swap-arms", "generators-for-lists", "name-tests", "swap-products", "loops-for-comprehensions", "rename-comprehension-variables", "alias-attributes", "numpy-function-forms", "conditional-expressions", "combined", "combined-2"):
+    for mode in ("rename-locals", "hoist-returns", "name-arguments", "unelse", "else-after-exit", "flip-comparisons", "keyword-arguments", "inline-temps", "swap-arms", "generators-for-lists", "name-tests", "swap-products", "loops-for-comprehensions", "rename-comprehension-variables", "alias-attributes", "numpy-function-forms", "conditional-expressions", "tuple-assignments", "plain-dict-iteration", "combined", "combined-2"):
         scratch, n = alpha.transformed_copy(mode)
         odir = tempfile.mkdtemp(prefix="batchie-verif-alpha-out-", dir="/var/tmp")
         try:
